@@ -252,6 +252,7 @@ class Recorder:
         self.app_msgs = []  # FIXMessage delivered to on_message
         self.raise_next = 0  # number of coming on_message calls that raise after recording
         self.responder = None  # async callable(msg) run inside on_message
+        self.disconnect_next = 0  # number of coming on_message calls that call disconnect() after recording
         self.auto_logon = True
         self.replay_filter = None  # callable(msg)->bool
         self.hook_gate = None  # async callable(name, *args) for the gate scheduler
@@ -273,6 +274,12 @@ class Recorder:
         if self.responder is not None:
             # an application that answers from inside its handler (re-entrant use of send_msg)
             await self.responder(msg)
+        if self.disconnect_next > 0:
+            # an application that ends the connection from inside its handler (public disconnect())
+            self.disconnect_next -= 1
+            from asyncfix.connection import ConnectionState as _CS
+
+            await self.disconnect(_CS.DISCONNECTED_BROKEN_CONN)
         if self.raise_next > 0:
             # an application handler that fails AFTER it took the message
             self.raise_next -= 1
